@@ -9,11 +9,11 @@ meta=$src/meta.json
 demo=$(python3 -c "import json;print(json.load(open('$meta'))['demo_file'])")
 place=$(python3 -c "import json;print(json.load(open('$meta'))['demo_place'])")
 cmd=$(python3 -c "import json,re;print(re.sub(r'/tmp/wt-C[0-9]+','/repo',json.load(open('$meta'))['demo_cmd']))")
-cleanup() { cd /repo; git checkout -q -- .; rm -f "/repo/$place/$demo"; }
+cleanup() { cd /repo; git checkout -q -- .; rm -f "/repo/$place/$demo"; git clean -fdq -e verifhook; }
 trap cleanup EXIT
 cp "$src/$demo" "/repo/$place/$demo"
 echo "== demo without patch (expect PASS)"; (cd /repo; eval "$cmd" >/tmp/seed-demo0.log 2>&1; echo "exit $?")
-git apply "$src/patch.diff" 2>/dev/null || patch -p1 -s --fuzz=3 < "$src/patch.diff" || { echo "PATCH DOES NOT APPLY"; exit 3; }
+git apply "$src/patch.diff" 2>/dev/null || patch -p1 -s --no-backup-if-mismatch --fuzz=3 < "$src/patch.diff" || { echo "PATCH DOES NOT APPLY"; exit 3; }
 echo "== demo with patch (expect FAIL)"; (cd /repo; eval "$cmd" >/tmp/seed-demo1.log 2>&1; echo "exit $?")
 rm -f "/repo/$place/$demo"
 echo "== suite with patch (expect ok)"; go test -vet=off -count=1 ./... 2>&1 | grep -v '^ok' | grep -v 'no test files' | head -5
